@@ -21,9 +21,12 @@
      c13_revival, c13_rotation_restored   recovery: the call that finds the check due and every evicted server out for more
                         than dead_timeout empties the eviction table, and whenever that table is empty the rotation is
                         exactly the set of servers the client started with
+     c13_check_time_bound, c13_two_periods, c13_two_periods_all   the "two dead_timeout periods" bound over whole histories
+                        (Proofs/C13Recovery.v): the check time is never more than dead_timeout ahead of an evicted server's
+                        eviction time, so the first call later than eviction + 2 * dead_timeout revives it
    The search on the real class runs the same oracle and clauses (blip episodes, random long histories, recovery probes). *)
 From Coq Require Import ZArith List Bool Lia.
-From PM Require Import Lib.Py Model.Hash Spec.Failover Proofs.C12Proof Proofs.C13Proof Proofs.C13Windows Proofs.C13Oracle Proofs.C13Escapes.
+From PM Require Import Lib.Py Model.Hash Spec.Failover Proofs.C12Proof Proofs.C13Proof Proofs.C13Windows Proofs.C13Oracle Proofs.C13Escapes Proofs.C13Recovery.
 Import ListNotations.
 Open Scope Z_scope.
 
@@ -172,6 +175,50 @@ Proof.
 Qed.
 Print Assumptions c13_rotation_restored.
 
+(* "within two dead_timeout periods of traffic", for every history: in every reachable state the time of the last check is at
+   most dead_timeout later than the eviction time of every server still evicted (the check time moves only when a check is
+   carried out, and a check revives everything older than dead_timeout).  Consequently, whatever happened before, the
+   revival check of the first key-addressed call whose clock reading is later than  eviction time + 2 * dead_timeout
+   is due and brings that server back into rotation; and when this holds of every evicted server, the eviction table is
+   empty afterwards and the rotation is the original one. *)
+Theorem c13_check_time_bound : forall (route : list server -> dyn -> exc (option server)) (c : hcfg), 0 <= hc_dead_timeout c ->
+  forall servers t0 times outs ops, mono t0 times -> Forall okout outs ->
+  let s := snd (run_hops route c ops (init_hstate servers t0 times outs)) in
+  forall sv td, In (sv, td) (h_dead s) -> td <= h_last_time s /\ h_last_check s <= td + hc_dead_timeout c.
+Proof.
+  intros route c Hd servers t0 times outs ops Hm Ho. cbn zeta. intros sv td Hin.
+  apply (j_age c _ (run_hops_J route c Hd ops _ (init_J c servers t0 times outs Hm Ho)) sv td Hin).
+Qed.
+Print Assumptions c13_check_time_bound.
+Theorem c13_two_periods : forall (route : list server -> dyn -> exc (option server)) (c : hcfg), 0 <= hc_dead_timeout c ->
+  forall servers t0 times outs ops, mono t0 times -> Forall okout outs ->
+  let s := snd (run_hops route c ops (init_hstate servers t0 times outs)) in
+  forall t rest sv td, h_time s = t :: rest -> In (sv, td) (h_dead s) -> t - td > 2 * hc_dead_timeout c ->
+  let s' := snd (retry_dead c s) in sv_get (h_dead s') sv = None /\ sv_mem (h_nodes s') sv = true.
+Proof.
+  intros route c Hd servers t0 times outs ops Hm Ho. cbn zeta. intros t rest sv td Ht Hin Hold.
+  apply (old_eviction_revived c Hd _ t rest sv td (run_hops_J route c Hd ops _ (init_J c servers t0 times outs Hm Ho)) Ht Hin Hold).
+Qed.
+Print Assumptions c13_two_periods.
+Theorem c13_two_periods_all : forall (route : list server -> dyn -> exc (option server)) (c : hcfg),
+  (forall nodes k sv, route nodes k = Ok (Some sv) -> sv_mem nodes sv = true) ->
+  0 <= hc_retry_attempts c -> hc_retry_timeout c < hc_dead_timeout c -> 0 <= hc_dead_timeout c ->
+  forall servers t0 times outs ops, mono t0 times -> Forall okout outs ->
+  let s := snd (run_hops route c ops (init_hstate servers t0 times outs)) in
+  forall t rest, h_time s = t :: rest -> h_dead s <> [] ->
+  (forall x td, In (x, td) (h_dead s) -> t - td > 2 * hc_dead_timeout c) ->
+  let s' := snd (retry_dead c s) in
+  h_dead s' = [] /\ forall sv, sv_mem (h_nodes s') sv = sv_mem (h_nodes (init_hstate servers t0 times outs)) sv.
+Proof.
+  intros route c Hr Ha Ht Hd servers t0 times outs ops Hm Ho. cbn zeta. intros t rest Htm Hne Hold.
+  pose proof (old_evictions_cleared c Hd _ t rest (run_hops_J route c Hd ops _ (init_J c servers t0 times outs Hm Ho)) Htm Hne Hold) as Hc.
+  split; [exact Hc|]. intros sv.
+  apply (rotation_restored c (h_nodes (init_hstate servers t0 times outs))); [|exact Hc].
+  intros sv0. apply C13Windows.retry_dead_inv.
+  apply (all_inv_hold route c Hr Ha Ht (h_nodes (init_hstate servers t0 times outs)) ops _ (init_all c servers t0 times outs Hm Ho) sv0).
+Qed.
+Print Assumptions c13_two_periods_all.
+
 (* non-vacuity: a history that drives one server through failure, a retry inside the window (no contact), retries after
    it, eviction with the last contact, revival and a further failure meets the premises; its contact log is the one shown *)
 Definition ex_route (nodes : list server) (k : dyn) : exc (option server) := Ok (if sv_mem nodes [97] then Some [97] else hd_error nodes).
@@ -191,3 +238,12 @@ Proof.
     destruct nodes as [|x t]; [discriminate|]. inversion H; subst. unfold sv_mem. cbn [existsb]. rewrite C12Proof.list_eqb_refl. reflexivity. }
   split; [cbn; lia|]. split; [repeat constructor|]. vm_compute. reflexivity.
 Qed.
+
+(* non-vacuity of c13_two_periods / c13_two_periods_all: [97] is evicted at 30; the next clock reading is 200 > 30 + 2 * 60 *)
+Example c13_two_periods_ex :
+  let fails : list (exc dyn) := [Raise ConnectionRefusedError; Raise ConnectionRefusedError; Raise ConnectionRefusedError; Raise ConnectionRefusedError] in
+  let ops := [HCmd 0 (DBytes [107]) DNone []; HCmd 0 (DBytes [107]) DNone []; HCmd 0 (DBytes [107]) DNone []; HCmd 0 (DBytes [107]) DNone []] in
+  let s := snd (run_hops ex_route ex_hcfg ops (init_hstate [[97]; [98]] 0 [10; 12; 17; 18; 30; 31; 200] fails)) in
+  h_dead s = [([97], 30)] /\ h_time s = [200] /\ h_nodes s = [[98]] /\
+  h_dead (snd (retry_dead ex_hcfg s)) = [] /\ h_nodes (snd (retry_dead ex_hcfg s)) = [[98]; [97]].
+Proof. vm_compute. repeat split. Qed.
